@@ -210,10 +210,11 @@ type StreamObs struct {
 func cliMsg(tag string, i int) []byte { return []byte(tag + "/c" + strconv.Itoa(i)) }
 
 // runStreamCall drives one streaming call. client is one of
-//   sendall   send everything, half-close, then receive until the end
-//   pingpong  send one, receive one, …, half-close, receive until the end
-//   conc      sender goroutine and receiver goroutine
-//   earlyclose half-close first, then receive until the end
+//
+//	sendall   send everything, half-close, then receive until the end
+//	pingpong  send one, receive one, …, half-close, receive until the end
+//	conc      sender goroutine and receiver goroutine
+//	earlyclose half-close first, then receive until the end
 func runStreamCall(ctx context.Context, cc grpc.ClientConnInterface, method, tag, prog, client string, nSend int, payload func(i int) []byte) *StreamObs {
 	o := &StreamObs{Tag: tag, Method: method, Prog: prog, Client: client}
 	ctx = metadata.AppendToOutgoingContext(ctx, "x-tag", tag, "x-prog", prog)
